@@ -49,7 +49,7 @@ def pStep (pool : Array ObjRec) (nq : Nat) : Tok → Except String StepRes
   | _ => .error "bad-step-syntax"
 
 def faultStr : Fault → String
-  | .nilDeref => "nilDeref" | .nilObj => "nilObj" | .indexRange => "indexRange" | .choice => "choice"
+  | .nilDeref => "nilDeref" | .nilObj => "nilObj" | .indexRange => "indexRange" | .choice => "choice" | .nnNil => "nnNil"
 
 /-- Spec verdict for one step, computed from the implementation's answers only.
 `s` = multiset after the operation according to the history semantics. -/
